@@ -112,7 +112,7 @@ def formatTime(
             tz = FixedOffsetTimeZone.fromLocalTimeStamp(when)
             datetime = DateTime.fromtimestamp(when, tz)
             return str(datetime.strftime(timeFormat))
-        except (OverflowError, OSError, ValueError, TypeError):
+        except Exception:
             # Not a timestamp, or one the platform cannot represent.
             return default
 
